@@ -543,6 +543,27 @@ def lex_records(h, henv, confs):
     return vlib.run_batch([h], reqs, henv)
 
 
+def grammar_evidence(src):
+    """What the grammar translator read from the parse.y under check (evidence only; the obligation is the Lean build)."""
+    import hashlib
+    import gen_grammar
+    try:
+        g = gen_grammar.read_grammar(src)
+    except gen_grammar.Fail as e:
+        return {'error': str(e)}
+    lean = os.path.join(vlib.LEAN, 'Mdsort', 'Gen', 'Grammar.lean')
+    return {
+        'source': 'parse.y of the tree under check through `bison --xml` (tools/gen_grammar.py)',
+        'start': g['start'],
+        'productions': len(g['rules']),
+        'error_productions': len([1 for _, r in g['rules'] if 'error' in r]),
+        'terminals': len(g['terminals']), 'unused_terminals': g['unused'], 'nonterminals': len(g['nonterminals']),
+        'precedence': [[a, ts] for a, ts in g['prec']],
+        'table_sha256': gen_grammar.table_hash(g),
+        'lean_file_sha256': hashlib.sha256(open(lean, 'rb').read()).hexdigest() if os.path.exists(lean) else None,
+    }
+
+
 def run(rep):
     rng = random.Random(rep.seed)
     sc = vlib.Scratch()
@@ -553,7 +574,11 @@ def run(rep):
         'the parser model (Model/Conf.lean) follows the LALR automaton bison generates from parse.y only up to the first diagnostic '
         '(error recovery is not modelled) and without its stack limit of 10000 states; it is compared with the real parser on '
         'accept/reject, first diagnostic line, trees and yylex calls (this run); regcomp is the platform library on both sides',
+        'the grammar table Gen/Grammar.lean (C14_printed_in_yacc_grammar, C14_model_parser_uses_grammar) is what `bison --xml` reports for '
+        'the parse.y of this run, translated by tools/gen_grammar.py: bison\'s reading of the grammar, the format of its report and the '
+        'translator are trusted; the LALR tables bison builds from the same productions are not examined',
     ])
+    rep.coverage['yacc_grammar'] = grammar_evidence(sc.src)
     # 1. lexer correspondence on grammar configs, their invalid edits, byte mutants and random bytes
     n = 300 if rep.tier == 'quick' else 20000
     base = BASE.replace('@HELPER@', '/bin/true')
